@@ -222,7 +222,7 @@ theorem Inv.recv (h : Inv c) (ib : List WsIn) (ba : List Msg) (bo : Bool) (hn : 
 theorem Inv.stepL (h : Inv c) {c' : BC} (st : CStepL c c') (hn : c'.a.rng ≠ []) : Inv c' := by
   cases st with
   | act v ws gs hs => exact h.act hs hn
-  | dlv m rest deaf hb =>
+  | dlv m rest deaf hb _ =>
     refine h.recv _ rest c.baOpen (fun x => (h.num x).dlv m rest deaf hb) ?_
     intro f hm
     cases deaf <;> simp only [Bool.false_eq_true, if_true, if_false, inMsgs_append, inMsgs, List.mem_append] at hm ⊢ <;>
